@@ -277,6 +277,14 @@ def eq_ladder(psin2):
     return lad
 
 
+class _DecisionOnly(Exception):
+    pass
+
+
+def _stop_here(*a, **k):
+    raise _DecisionOnly()
+
+
 def eq_task(task):
     from hypnotoad.cases import tokamak
 
@@ -288,7 +296,7 @@ def eq_task(task):
     s = np.linspace(0.0, 1.0, 33)
     psi1 = pax + s * (xr[0][2] - pax)
     viol, st = [], dict(cases=0, refused=0, single=0, double=0, none=0, legs=0, worst_strike=0.0,
-                        worst_xpos=0.0, sample=None, legs_skipped_xpoint_at_wall=0)
+                        worst_xpos=0.0, sample=None, legs_skipped_xpoint_at_wall=0, decision_only=0)
     for wname in task["walls"]:
         if wname.startswith("Wx") and len(xr) < 2:
             continue  # these walls cut next to the *second* X-point
@@ -306,8 +314,15 @@ def eq_task(task):
                                                 wall=[tuple(p) for p in wall], make_regions=False,
                                                 settings=settings)
                 nfound = len(eq.x_points)
+                if wname.startswith("Wx"):
+                    # an X-point 1e-5 m from the wall: only the topology decision is of
+                    # interest (tracing legs that start outside the wall takes a minute and
+                    # means nothing), so stop makeRegions at its first use of the kept X-points
+                    eq.findLegs = _stop_here
                 try:
                     eq.makeRegions()
+                except _DecisionOnly:
+                    exc = _DecisionOnly()
                 except Exception as e:  # refusals are explicit errors; the decision is still visible
                     exc = e
             filtered = isinstance(eq.x_points, tuple)
@@ -339,6 +354,9 @@ def eq_task(task):
                     kept=kept)
                 continue
             st["single" if len(keep) == 1 else "double"] += 1
+            if isinstance(exc, _DecisionOnly):
+                st["decision_only"] += 1
+                continue
             if exc is not None:
                 st["refused"] += 1
                 continue
@@ -531,7 +549,7 @@ def run(ctx, only=None):
             results = list(ex.map(_work, tasks, chunksize=1))
     else:
         results = [_work(t) for t in tasks]
-    tot = dict(fc=dict(cases=0, points=0, order_skipped=0), eq=dict(cases=0, refused=0, single=0, double=0, none=0, legs=0, legs_skipped_xpoint_at_wall=0),
+    tot = dict(fc=dict(cases=0, points=0, order_skipped=0), eq=dict(cases=0, refused=0, single=0, double=0, none=0, legs=0, legs_skipped_xpoint_at_wall=0, decision_only=0),
                sp=dict(cases=0, refused=0))
     for r in results:
         kind = r["task"]["kind"]
@@ -576,6 +594,7 @@ def run(ctx, only=None):
     ctx.set("eq_expected_double_null", tot["eq"]["double"])
     ctx.set("eq_expected_no_xpoint", tot["eq"]["none"])
     ctx.set("eq_refused_after_decision", tot["eq"]["refused"])
+    ctx.set("eq_decision_only_cases_wall_at_xpoint", tot["eq"]["decision_only"])
     ctx.set("legs_judged", tot["eq"]["legs"])
     ctx.set("legs_skipped_xpoint_at_wall", tot["eq"]["legs_skipped_xpoint_at_wall"])
     ctx.set("saddle_calls", tot["sp"]["cases"])
